@@ -21,6 +21,7 @@ use dropshot::StreamingBody;
 use dropshot::TypedBody;
 use dropshot::UntypedBody;
 use dsharness::server::*;
+use dropshot::ApiEndpointVersions;
 use dsharness::util::*;
 use futures::StreamExt;
 use hyper::body::Frame;
@@ -320,7 +321,7 @@ fn ov_label(o: Option<usize>) -> String {
     }
 }
 
-fn build_api() -> ApiDescription<Arc<Ctx>> {
+fn build_api(newest_first: bool) -> ApiDescription<Arc<Ctx>> {
     let mut api = ApiDescription::new();
     for kind in KINDS {
         for ov in OVERRIDES {
@@ -340,8 +341,63 @@ fn build_api() -> ApiDescription<Arc<Ctx>> {
     api.register(hm_typed).unwrap();
     api.register(hm_untyped).unwrap();
     api.register(hm_streaming).unwrap();
+    // one path and method, three version ranges, three different limits
+    let mut vers: Vec<(ApiEndpointVersions, Option<usize>)> = VERSIONED
+        .iter()
+        .map(|(lo, hi, ov)| {
+            let v = |s: &str| semver::Version::parse(s).unwrap();
+            let r = match (lo, hi) {
+                (None, Some(h)) => ApiEndpointVersions::until(v(h)),
+                (Some(l), Some(h)) => ApiEndpointVersions::from_until(v(l), v(h)).unwrap(),
+                (Some(l), None) => ApiEndpointVersions::from(v(l)),
+                (None, None) => ApiEndpointVersions::all(),
+            };
+            (r, *ov)
+        })
+        .collect();
+    if newest_first {
+        vers.reverse();
+    }
+    for kind in KINDS {
+        for (i, (r, ov)) in vers.drain(..).collect::<Vec<_>>().into_iter().enumerate() {
+            let mut ep: ApiEndpoint<Arc<Ctx>> = match *kind {
+                "typed" => ApiEndpoint::from(h_typed),
+                "untyped" => ApiEndpoint::from(h_untyped),
+                _ => ApiEndpoint::from(h_streaming),
+            };
+            ep.path = format!("/v/{}", kind);
+            ep.operation_id = format!("v_{}_{}", kind, i);
+            ep.versions = r;
+            if let Some(n) = ov {
+                ep = ep.request_body_max_bytes(n);
+            }
+            api.register(ep).unwrap();
+        }
+        // rebuild the list for the next kind
+        vers = VERSIONED
+            .iter()
+            .map(|(lo, hi, ov)| {
+                let v = |s: &str| semver::Version::parse(s).unwrap();
+                let r = match (lo, hi) {
+                    (None, Some(h)) => ApiEndpointVersions::until(v(h)),
+                    (Some(l), Some(h)) => ApiEndpointVersions::from_until(v(l), v(h)).unwrap(),
+                    (Some(l), None) => ApiEndpointVersions::from(v(l)),
+                    (None, None) => ApiEndpointVersions::all(),
+                };
+                (r, *ov)
+            })
+            .collect();
+        if newest_first {
+            vers.reverse();
+        }
+    }
     api
 }
+
+/// (from, until, override) of the versioned endpoints, and the version that selects each.
+const VERSIONED: &[(Option<&str>, Option<&str>, Option<usize>)] =
+    &[(None, Some("2.0.0"), Some(40)), (Some("2.0.0"), Some("3.0.0"), None), (Some("3.0.0"), None, Some(8))];
+const VERSION_PROBES: &[(&str, Option<usize>)] = &[("1.0.0", Some(40)), ("2.0.0", None), ("3.0.0", Some(8))];
 
 /// A body of exactly `n` bytes; for the typed endpoint it is valid JSON
 /// (`n >= 1`): one digit, or a quoted string.
@@ -371,14 +427,46 @@ struct SvCase {
     chunks: Option<Vec<usize>>,
     body: Vec<u8>,
     token: String,
+    /// API version sent in the header (the versioned endpoints `/v/<kind>` have one limit per version)
+    version: &'static str,
+    /// also send a `Content-Length` header with this value *before* `Transfer-Encoding: chunked`
+    clte: Option<usize>,
 }
 
 fn sv_run(addr: std::net::SocketAddr, c: &SvCase) -> Option<RawResponse> {
-    let path = if c.via == "m" { format!("/m/{}", c.kind) } else { format!("/b/{}/o{}", c.kind, ov_label(c.ov)) };
-    let hdrs = [("content-type", "application/json"), ("x-token", c.token.as_str()), ("connection", "close")];
-    let raw = match &c.chunks {
-        None => build_request("PUT", &path, &hdrs, &c.body),
-        Some(ch) => build_chunked_request("PUT", &path, &hdrs, &c.body, ch),
+    let path = if c.via == "m" {
+        format!("/m/{}", c.kind)
+    } else if c.via == "v" {
+        format!("/v/{}", c.kind)
+    } else {
+        format!("/b/{}/o{}", c.kind, ov_label(c.ov))
+    };
+    let hdrs = [
+        ("content-type", "application/json"),
+        ("x-token", c.token.as_str()),
+        ("connection", "close"),
+        ("api-version", c.version),
+    ];
+    let raw = match (&c.chunks, c.clte) {
+        (None, _) => build_request("PUT", &path, &hdrs, &c.body),
+        (Some(ch), None) => build_chunked_request("PUT", &path, &hdrs, &c.body, ch),
+        (Some(ch), Some(cl)) => {
+            // both framing headers, Content-Length first: hyper decodes the body as chunked
+            let plain = build_chunked_request("PUT", &path, &hdrs, &c.body, ch);
+            let text = String::from_utf8_lossy(&plain).to_string();
+            let patched = text.replacen(
+                "transfer-encoding: chunked\r\n",
+                &format!("content-length: {}\r\ntransfer-encoding: chunked\r\n", cl),
+                1,
+            );
+            let mut v = patched.into_bytes();
+            // the body may contain non-UTF-8 bytes: rebuild from the original tail
+            let head_end = plain.windows(4).position(|w| w == b"\r\n\r\n").unwrap() + 4;
+            let new_head_end = v.windows(4).position(|w| w == b"\r\n\r\n").unwrap() + 4;
+            v.truncate(new_head_end);
+            v.extend_from_slice(&plain[head_end..]);
+            v
+        }
     };
     for _ in 0..3 {
         if let Some(r) = roundtrip(addr, &raw, false) {
@@ -405,19 +493,30 @@ fn sv_stream(out: &mut Out, id: &mut u64, rng: &mut Rng, thorough: bool) {
     for dflt in [0usize, 1, 16, 1024] {
         let ctx = Arc::new(Ctx::default());
         let server = rt.block_on(async {
-            start_server(build_api(), ctx.clone(), ServerOpts { default_request_body_max_bytes: dflt, ..Default::default() })
+            let policy = dropshot::VersionPolicy::Dynamic(Box::new(dropshot::ClientSpecifiesVersionInHeader::new(
+                http::HeaderName::from_static("api-version"),
+                semver::Version::parse("9.0.0").unwrap(),
+            )));
+            start_server(
+                build_api(dflt % 2 == 0),
+                ctx.clone(),
+                ServerOpts { default_request_body_max_bytes: dflt, version_policy: Some(policy), ..Default::default() },
+            )
         });
         let addr = server.local_addr();
         let mut cases: Vec<SvCase> = Vec::new();
         let mut tok = 0u64;
-        let mut endpoints: Vec<(&'static str, Option<usize>, &'static str)> = Vec::new();
+        let mut endpoints: Vec<(&'static str, Option<usize>, &'static str, &'static str)> = Vec::new();
         for kind in KINDS {
             for ov in OVERRIDES {
-                endpoints.push((*kind, *ov, "b"));
+                endpoints.push((*kind, *ov, "b", "1.0.0"));
             }
-            endpoints.push((*kind, Some(MACRO_CAP), "m"));
+            endpoints.push((*kind, Some(MACRO_CAP), "m", "1.0.0"));
+            for (ver, ov) in VERSION_PROBES {
+                endpoints.push((*kind, *ov, "v", ver));
+            }
         }
-        for (kind, ov, via) in endpoints {
+        for (kind, ov, via, version) in endpoints {
             let cap = ov.unwrap_or(dflt);
             let mut lens = vec![cap.saturating_sub(1), cap, cap + 1, cap * 10, cap / 2, cap + 2];
             if cap == 0 {
@@ -450,7 +549,9 @@ fn sv_stream(out: &mut Out, id: &mut u64, rng: &mut Rng, thorough: bool) {
                         Some(v)
                     };
                     tok += 1;
-                    cases.push(SvCase { kind, dflt, ov, via, n, chunks, body, token: format!("t{}-{}", dflt, tok) });
+                    // some chunked requests also carry a (smaller or equal) Content-Length in front
+                    let clte = if chunks.is_some() && rep % 2 == 0 { Some(n.min(cap)) } else { None };
+                    cases.push(SvCase { kind, dflt, ov, via, n, chunks, body, token: format!("t{}-{}", dflt, tok), version, clte });
                 }
             }
         }
@@ -487,7 +588,7 @@ fn sv_stream(out: &mut Out, id: &mut u64, rng: &mut Rng, thorough: bool) {
                 ov_label(c.ov),
                 c.via,
                 c.n,
-                if c.chunks.is_some() { "ch" } else { "cl" },
+                if c.clte.is_some() { "ct" } else if c.chunks.is_some() { "ch" } else { "cl" },
                 c.chunks.as_ref().map(|v| csv(v)).unwrap_or("-".to_string())
             );
             let Some(r) = r else {
